@@ -157,8 +157,20 @@ def replay(path):
         finally:
             shutil.rmtree(work, ignore_errors=True)
     else:
+        import shutil
+        import seqcheck
         r = subprocess.run([h, 'seq-one', '--case', path], capture_output=True, text=True)
-        sys.stdout.write(r.stdout)
-        sys.stderr.write(r.stderr)
+        lines = [x for x in r.stdout.splitlines() if x.startswith('{')]
+        sys.stdout.write('\n'.join(lines) + '\n')
+        work = seqcheck.make_workdir('replay')
+        try:
+            with open(work + '/one.ndjson', 'w') as f:
+                f.write('\n'.join(lines) + '\n')
+            for tid, v in seqcheck.validate_traces(work, [work + '/one.ndjson'], 'replay').items():
+                flag = body.get('monitor')
+                print('TLC verdict of the replayed execution: %s %s; %s' % (flag, 'REJECTED at line %s' % v['rej'][flag] if v['rej'].get(flag) else 'accepted',
+                                                                            'differs from the L1 model' if v['drift'] else 'agrees with the L1 model'))
+        finally:
+            shutil.rmtree(work, ignore_errors=True)
     print('replayed %s (property %s, monitor %s)' % (path, body.get('property'), body.get('monitor')))
     return 0
